@@ -74,7 +74,7 @@ def lev_param_task(p, cx):
             E.eq("order-%d:first-%d-reflection-coefficients" % (q, q), v2[2], ks[:q])
             E.eq("order-%d:a=stepup(k[:%d])" % (q, q), v2[0], stepup(ks[:q]))
         tc.assumptions.update(set(dom.assumptions[:3]))
-    return Task("levinson.param.%s.p%d" % ("complex" if cx else "real", p), run, kind="bounded", functions=["spectrum.levinson.LEVINSON"])
+    return Task("levinson.param.%s.p%d" % ("complex" if cx else "real", p), run, kind="bounded", prerun=True, functions=["spectrum.levinson.LEVINSON"])
 
 
 def lev_generic_task(p, cx):
@@ -94,7 +94,7 @@ def lev_generic_task(p, cx):
             prod = prod * (1 - V.s_abs2(k))
         E.eq("P=r0*prod(1-|ref|^2)", Pc, prod)
         E.eq("a=stepup(ref)", A, stepup(ref.to_list()))
-    return Task("levinson.generic.%s.p%d" % ("complex" if cx else "real", p), run, kind="bounded", functions=["spectrum.levinson.LEVINSON"])
+    return Task("levinson.generic.%s.p%d" % ("complex" if cx else "real", p), run, kind="bounded", prerun=True, functions=["spectrum.levinson.LEVINSON"])
 
 
 def lev_raise_task(allow):
@@ -144,7 +144,7 @@ def hermtoep_task(M, param):
         if val is None:
             return
         E.eq("T X = Z", toeplitz_apply([Cx(T0, 0)] + T, val.to_list()), Z)
-    return Task("hermtoep.generic.M%d" % M, run, kind="bounded", functions=["spectrum.toeplitz.HERMTOEP"])
+    return Task("hermtoep.generic.M%d" % M, run, kind="bounded", prerun=True, functions=["spectrum.toeplitz.HERMTOEP"])
 
 
 def toeplitz_task(M):
@@ -179,7 +179,7 @@ def toeplitz_task(M):
                 acc = acc + t * X[j]
             out.append(acc)
         E.eq("T X = Z (TC first column, TR first row)", out, Z)
-    return Task("toeplitz.generic.M%d" % M, run, kind="bounded", functions=["spectrum.toeplitz.TOEPLITZ"])
+    return Task("toeplitz.generic.M%d" % M, run, kind="bounded", prerun=True, functions=["spectrum.toeplitz.TOEPLITZ"])
 
 
 def cholesky_task(n, method):
